@@ -92,11 +92,7 @@ func run(f func()) guard {
 			if r := recover(); r != nil {
 				g.panicked = true
 				g.panicVal = fmt.Sprint(r)
-				st := string(debug.Stack())
-				if len(st) > 2500 {
-					st = st[:2500]
-				}
-				g.stack = st
+				g.stack = trimStack(string(debug.Stack()))
 			}
 		}()
 		f()
@@ -110,6 +106,26 @@ func run(f func()) guard {
 	g.secs = time.Since(t0).Seconds()
 	g.alloc = allocated() - a0
 	return g
+}
+
+// trimStack keeps the frames between the panic and the harness (the library's frames).
+func trimStack(st string) string {
+	lines := strings.Split(st, "\n")
+	start := 0
+	for i, l := range lines {
+		if strings.HasPrefix(l, "panic(") {
+			start = i + 2
+			break
+		}
+	}
+	var out []string
+	for i := start; i+1 < len(lines) && len(out) < 16; i += 2 {
+		if strings.HasPrefix(lines[i], "verifharness/") {
+			break
+		}
+		out = append(out, "    "+lines[i], "    "+strings.TrimSpace(lines[i+1]))
+	}
+	return strings.Join(out, "\n")
 }
 
 // oneByteReader hides ReadByte and hands out one byte per Read, so the decoder
@@ -190,18 +206,28 @@ func classOf(kind string, w *walkResult) string {
 	return k + ":" + w.Status + "@" + at
 }
 
-// deadlyKnown: the compressed polygon format's loop count is used for an
+// predictedFinding: the compressed polygon format's loop count is used for an
 // allocation although it is over the limit (finding polygon-compressed-nloops-unchecked).
-// For counts in [2^25, 2^60) that allocation is 256 MB … many GB followed by one
-// 112-byte Loop per declared loop: it kills the worker. While that finding is in
-// VERIF_KNOWN such inputs are attributed to it without being executed, so the
-// search can continue behind it; when it is not known they ARE executed and the
-// dead worker is reported through the journal.
-func predictedFinding(kind string, w *walkResult) string {
-	if kind == "polygon" && w.Status == stOverLimit && w.At == "polygon4.nloops" {
-		return "polygon-compressed-nloops-unchecked"
+// For counts in (limit, 2^60) that allocation is 80 MB … many GB followed by one
+// 112-byte Loop per declared loop: seconds of work and 1.2 GB at best, a dead
+// worker at worst. While that finding is listed in VERIF_KNOWN such inputs are
+// attributed to it WITHOUT being executed, so the search can continue behind
+// it (counts ≥ 2^60 only panic in makeslice and are executed). When the finding
+// is not known every such input IS executed and a dead worker is reported
+// through the journal.
+func predictedFinding(kind string, w *walkResult) (string, uint64) {
+	if kind == "polygon" && w.At == "polygon4.nloops" {
+		switch w.Status {
+		case stOverLimit:
+			return "polygon-compressed-nloops-unchecked", w.OverVal
+		case stBadVarint, stTruncated:
+			// the partial value of the broken varint is used as the loop count
+			if w.Partial > limLoops {
+				return "polygon-compressed-nloops-unchecked", w.Partial
+			}
+		}
 	}
-	return ""
+	return "", 0
 }
 
 func nonTrivial(kind string, data []byte, w *walkResult) bool {
@@ -240,9 +266,8 @@ func checkBytes(kind string, data []byte, slowReader bool) result {
 		return res
 	}
 
-	if pf := predictedFinding(kind, w); pf != "" && knownSet[pf] {
-		v := w.OverVal
-		if v >= 1<<25 && v < 1<<60 {
+	if pf, v := predictedFinding(kind, w); pf != "" && knownSet[pf] {
+		if v < 1<<60 {
 			res.class += "/known-not-executed"
 			return fail(pf, "declared loop count %d over the limit reaches make([]*Loop, n) (known finding; not executed because it would abort the worker)", v)
 		}
@@ -258,13 +283,14 @@ func checkBytes(kind string, data []byte, slowReader bool) result {
 	if g.timedOut {
 		return fail("decode-hang-"+kind, "Decode did not return within %v", callDeadline)
 	}
+	predicted, _ := predictedFinding(kind, w)
 	if g.panicked {
 		f := "decode-panic-" + kind
 		switch {
 		case kind == "cellunion" && w.Status == stOverLimit && w.OverVal >= 1<<63:
 			f = "cellunion-negative-count"
-		case predictedFinding(kind, w) != "":
-			f = predictedFinding(kind, w)
+		case predicted != "":
+			f = predicted
 		case kind == "polygon" && w.Status == stOffCenter && w.At == "polygon4.loop.offidx":
 			f = "compressed-offcenter-index-unchecked"
 		case kind == "cell" && w.Status == stComplete:
@@ -276,7 +302,7 @@ func checkBytes(kind string, data []byte, slowReader bool) result {
 	// oracle (2): a declared count beyond the documented limit is an error and
 	// is rejected before memory is allocated for it
 	if w.Status == stOverLimit {
-		res.allocRatio = float64(g.alloc) / allocLimit
+		res.allocRatio = float64(g.alloc) / float64(allocLimit+w.Allowance+1024*uint64(len(data)))
 		if derr == nil {
 			f := "overlimit-accepted-" + kind
 			if kind == "polyline" {
@@ -284,10 +310,12 @@ func checkBytes(kind string, data []byte, slowReader bool) result {
 			}
 			return fail(f, "declared count %d at %s is over the limit but Decode returned a nil error", w.OverVal, w.At)
 		}
-		if g.alloc >= allocLimit {
+		// memory the decoder may have spent on earlier, within-limit counts and on
+		// the bytes actually present is not charged to the over-limit count
+		if g.alloc >= allocLimit+w.Allowance+1024*uint64(len(data)) {
 			f := "overlimit-allocates-" + kind
-			if pf := predictedFinding(kind, w); pf != "" {
-				f = pf
+			if predicted != "" {
+				f = predicted
 			}
 			return fail(f, "declared count %d at %s is over the limit; Decode returned %q but allocated %d MiB first (bound %d MiB)",
 				w.OverVal, w.At, derr, g.alloc>>20, allocLimit>>20)
